@@ -28,7 +28,11 @@ def h_history(e, **kw):
     return cachestep.h_history(e, **kw)
 
 
-HARNESSES = {"step": h_step, "history": h_history}
+def h_prog(e, **kw):
+    return cachestep.h_prog_dcache(e, **kw)
+
+
+HARNESSES = {"step": h_step, "history": h_history, "prog": h_prog}
 
 
 def jobs(tier, seed):
@@ -36,7 +40,8 @@ def jobs(tier, seed):
 
 
 def extra_jobs(tier, seed):
-    return []
+    # program-level clause: the state relation at the end of bounded symbolic programs (both modes)
+    return [j for j in cachestep.prog_jobs(tier, seed, {"C12"}, "checks.c12") if set(j["args"]["mnems"]) & {"sb", "sh", "sw"}]
 
 
 BUDGET = {"quick": None, "thorough": 20 * 60}
